@@ -464,7 +464,8 @@ func main() {
 	r.Assume("command names reach FilterCmd lower-cased (client.ParseArgs); mixed-case lookups are not judged")
 	r.Assume("non-key arguments of SORT/GEORADIUS/XREADGROUP are benign (never option keywords); SORT and GEORADIUS are generated with STORE only, the form a master propagates")
 	r.Assume("FT.*, CMS.MERGE, TDIGEST.MERGE are in the tool's table but not judged: their declared key positions depend on the module build")
-	r.Assume("end-to-end layer (SendAof/SendRdb target log under a filter) is not part of this binary; generators are exported from verif/internal/ref for it")
+	r.Assume("end-to-end layer: streams and snapshots are replayed by the real RedisOutput under the generated filter configuration (configurations with empty-string prefix entries are not used there)")
+	runE2E(r)
 	r.Exit()
 }
 
